@@ -598,6 +598,7 @@ type c19Choice struct {
 type c19Plan struct {
 	fam      string
 	cfgKind  string // none | bin | text | badbin | badtext | missing
+	cfgUnknown string // text configs only: "" | "top" (an unknown top-level field appended) | "misspelt" (a field name of the config misspelt): not a Config
 	shape    string // full | nopolicy | noheader | nobody | norot | empty
 	quote    string
 	format   string
@@ -885,6 +886,28 @@ func (w *c19World) build(p *c19Plan, idx int) {
 		if err != nil {
 			panic(err)
 		}
+		if p.cfgUnknown != "" {
+			// a text config that names a field the Config message does not have (a typo, a field of a newer schema): it is not a
+			// Config — whatever constraint the author meant by it cannot be enforced
+			txt := string(b)
+			done := false
+			if p.cfgUnknown == "misspelt" {
+				for _, pair := range [][2]string{{"minimum_qe_svn", "minimum_qe_svm"}, {"check_crl", "check_clr"}, {"mr_td", "mrtd"}, {"td_quote_body_policy", "td_quote_body_polcy"}, {"root_of_trust", "root_of_trvst"}, {"policy", "polcy"}} {
+					if strings.Contains(txt, pair[0]+":") || strings.Contains(txt, pair[0]+" {") || strings.Contains(txt, pair[0]+"{") {
+						txt = strings.Replace(txt, pair[0], pair[1], 1)
+						done = true
+						break
+					}
+				}
+			}
+			if !done {
+				txt += "\nno_such_field: 1\n"
+			}
+			b = []byte(txt)
+			// for the model this is a config that cannot be read: nothing of its content counts
+			cfgPresent, cfgVals = false, map[string]fval{}
+			p.cPaths, p.cBundles, p.cCrl, p.cGc = nil, nil, false, false
+		}
 		p.cfgPath = c19MustWrite(filepath.Join(w.dir, "cfg", fmt.Sprintf("%d.textproto", idx)), b)
 	case "badbin":
 		p.cfgPath = c19MustWrite(filepath.Join(w.dir, "cfg", fmt.Sprintf("%d.pb", idx)), []byte{0x0a, 0xff, 0xff, 0xff, 0xff, 0x0f, 0x01})
@@ -997,7 +1020,11 @@ func (w *c19World) build(p *c19Plan, idx int) {
 	case "none":
 		sb.WriteString(" cfg=none")
 	case "bin", "text":
-		sb.WriteString(" cfg=file")
+		if p.cfgUnknown != "" {
+			sb.WriteString(" cfg=bad")
+		} else {
+			sb.WriteString(" cfg=file")
+		}
 	default:
 		sb.WriteString(" cfg=bad")
 	}
@@ -1077,7 +1104,7 @@ func (w *c19World) build(p *c19Plan, idx int) {
 
 	// ---- the oracle's expectation, from the property statement
 	p.oracle(w, msg, quoteFact, cfgPresent, cfgVals, flags, fRoots, rootsBad)
-	p.key = fmt.Sprintf("%s|%s|%s|%s|%s|%s|%v|%v|%v|%s|%s|%s|%v|%v|%s", p.cfgKind, p.shape, p.quote, p.format, p.in, c19Classes(p), p.cPaths, p.cBundles, p.fRoots, p.fCrl, p.fGc, p.extra, p.cCrl, p.cGc, fmt.Sprint(p.local))
+	p.key = fmt.Sprintf("%s|%s|%s|%s|%s|%s|%v|%v|%v|%s|%s|%s|%v|%v|%s", p.cfgKind+p.cfgUnknown, p.shape, p.quote, p.format, p.in, c19Classes(p), p.cPaths, p.cBundles, p.fRoots, p.fCrl, p.fGc, p.extra, p.cCrl, p.cGc, fmt.Sprint(p.local))
 }
 
 func c19Join(l []string) string {
@@ -1110,7 +1137,7 @@ func (p *c19Plan) oracle(w *c19World, msg *pb.QuoteV4, quoteFact string, cfgPres
 	if p.fpkBad {
 		note("usage-flagpkg: command line rejected by the flag package")
 	}
-	if p.cfgKind == "badbin" || p.cfgKind == "badtext" || p.cfgKind == "missing" {
+	if p.cfgKind == "badbin" || p.cfgKind == "badtext" || p.cfgKind == "missing" || p.cfgUnknown != "" {
 		note("unreadable config")
 	}
 	pol := emptyPolicy()
@@ -1865,6 +1892,17 @@ func c19(r *hx.Run) {
 			}
 		}
 	}
+	// -- U: text configs that name a field the Config message does not have
+	for _, unk := range []string{"top", "misspelt"} {
+		for _, shape := range []string{"full", "nopolicy", "norot", "empty"} {
+			for _, quote := range []string{"s", "g", "corrupt"} {
+				p := g.plan(g.base(lock("cfgKind", "text", "shape", shape, "quote", quote, "in", "file")), "U:unknown-field")
+				p.cfgUnknown = unk
+				p.tags = append(p.tags, "unknown-field:"+unk)
+				add(p)
+			}
+		}
+	}
 	// -- P: what Go's flag package rejects (or accepts silently)
 	for _, ex := range [][]string{{"-timeout=abc"}, {"-no_such_flag"}, {"-verbosity=x"}, {"-quiet=maybe"}, {"-test_local_getter=2"}, {"-max_retry_delay=fast"}, {"-h"}, {"-help"}, {"-in"}} {
 		for _, quote := range []string{"s", "corrupt"} {
@@ -1881,7 +1919,7 @@ func c19(r *hx.Run) {
 	}
 
 	// the small families first: the first recorded failures then show one input of every kind
-	prio := map[byte]int{'N': 0, 'P': 1, 'Q': 2, 'F': 3, 'C': 4, 'A': 5, 'B': 6}
+	prio := map[byte]int{'N': 0, 'P': 1, 'Q': 2, 'F': 3, 'C': 4, 'A': 5, 'B': 6, 'U': 2}
 	sort.SliceStable(plans, func(i, j int) bool { return prio[plans[i].fam[0]] < prio[plans[j].fam[0]] })
 	for i, p := range plans {
 		w.build(p, i)
